@@ -119,6 +119,10 @@ def estimate(  # noqa: PLR0913
         G = [np.empty(())] * model.ndims
         nsamples = data_subs.shape[0]
         for k in range(model.ndims):
+            if nsamples == 0:
+                # An empty sample (possible for Poisson distributed counts)
+                G[k] = np.zeros_like(model.factor_matrices[k])
+                continue
             # The row of each element is the row index to accumulate in the gradient.
             # The columns are the corresponding samples. They are in order because they
             # match the vector of samples to be multiplied on the right.
